@@ -254,3 +254,62 @@ Theorem within_one_unit_true_elapsed_rs : forall a b, dt_pair a b -> 1 <= p_year
     end.
 Proof. exact within_one_unit_true_elapsed_rs_lemma. Qed.
 Print Assumptions within_one_unit_true_elapsed_rs.
+
+(* ---- the MODEL side itself: the locale session machine Model/LocaleSession.v EQUALS the machine translation of pendulum's own code
+   (Gen/HumanizeGlue.v: locales/locale.py Locale.normalize_locale / Locale.load, helpers.py locale / set_locale / get_locale / format_diff,
+   translated from /repo on every run; pendulum._LOCALE and Locale._cache are explicit state threaded through the functions,
+   tools/vlib/gens/g18_humanize_glue.py).  cache_ok c = every cache entry is what a fresh load of its key builds: true of the empty cache and
+   preserved by every function below, so the TRANSPARENCY of Locale._cache is proved, not assumed.  The DifferenceFormatter itself and the
+   in_words skeletons are not translated (Model/DiffFormat.v stays a hand model). ---- *)
+From PV Require Import Model.HumanizeObj Gen.HumanizeGlue Proofs.HumanizeGlueFacts.
+
+Theorem model_is_code_normalize_locale : forall s, glue_normalize_locale s = normalize_locale s.
+Proof. exact glue_normalize_locale_spec. Qed.
+Print Assumptions model_is_code_normalize_locale.
+
+Theorem model_is_code_locale_load : forall c name, cache_ok c ->
+  match glue_Locale_load c name with
+  | Ok (L, c') => load name = Ok (gl_data L) /\ gl_name L = normalize_locale name /\ cache_ok c'
+  | Raise e => load name = Raise e
+  end.
+Proof. exact glue_load_spec. Qed.
+Print Assumptions model_is_code_locale_load.
+
+Theorem model_is_code_locale_cache_transparent : forall c1 c2 name, cache_ok c1 -> cache_ok c2 ->
+  match glue_Locale_load c1 name, glue_Locale_load c2 name with
+  | Ok (L1, _), Ok (L2, _) => L1 = L2
+  | Raise e1, Raise e2 => e1 = e2
+  | _, _ => False
+  end.
+Proof. exact load_is_transparent. Qed.
+Print Assumptions model_is_code_locale_cache_transparent.
+
+Theorem model_is_code_locale : forall c st name, cache_ok c ->
+  match glue_locale c name with
+  | Ok (L, c') => step st (SLoad name) = (st, Ok (gl_name L)) /\ cache_ok c'
+  | Raise e => step st (SLoad name) = (st, Raise e)
+  end.
+Proof. exact glue_locale_step. Qed.
+Print Assumptions model_is_code_locale.
+
+(* set_locale validates FIRST (locale(name) may raise ValueError) and stores the name only afterwards: a failed call keeps the configuration *)
+Theorem model_is_code_set_locale : forall c st name, cache_ok c ->
+  match glue_set_locale c name with
+  | Ok (st', c') => step st (SSet name) = (st', Ok []) /\ cache_ok c'
+  | Raise e => step st (SSet name) = (st, Raise e)
+  end.
+Proof. exact glue_set_locale_step. Qed.
+Print Assumptions model_is_code_set_locale.
+
+Theorem model_is_code_get_locale : forall st, step st SGet = (st, Ok (glue_get_locale st)).
+Proof. exact glue_get_locale_step. Qed.
+Print Assumptions model_is_code_get_locale.
+
+(* format_diff(diff, is_now, absolute, locale): locale None -> the CONFIGURED name; then the formatter on the loaded locale *)
+Theorem model_is_code_format_diff : forall c st loc d is_now absolute invert, cache_ok c ->
+  match glue_format_diff c st (mkgdiff d invert) is_now absolute loc with
+  | Ok (s, c') => step st (SFmt loc d is_now absolute invert) = (st, Ok s) /\ cache_ok c'
+  | Raise e => step st (SFmt loc d is_now absolute invert) = (st, Raise e)
+  end.
+Proof. exact glue_format_diff_step. Qed.
+Print Assumptions model_is_code_format_diff.
